@@ -164,7 +164,8 @@ HIERARCHICAL = ('nested_json', 'nested_text', 'query', 'script')
 
 
 def interference(rng):
-    """other objects of the same classes, built with non-default options, doing their own successful work"""
+    """other objects of the same classes, built with non-default options, doing their own successful work on ANOTHER message:
+    whatever is shared between instances (class attributes, mutable default arguments, module-level memos) would carry it over"""
     from pybufrkit.encoder import Encoder
     from pybufrkit.decoder import Decoder
     global INTERFERENCE_JSON
@@ -173,12 +174,43 @@ def interference(rng):
         if INTERFERENCE_JSON is None:
             INTERFERENCE_JSON = _interference_json()
         b = Encoder(master_table_version=mtv).process(INTERFERENCE_JSON).serialized_bytes
-        Decoder(compiled_template_cache_max=1).process(b)
+        m = Decoder(compiled_template_cache_max=1).process(b)
     except Exception:
-        pass
+        return
+    acts = rng.sample(range(8), 3)
+    for a in acts:
+        try:
+            if a == 0:
+                Encoder(master_table_number=0, master_table_version=mtv, ignore_declared_length=False).process(INTERFERENCE_JSON)
+            elif a == 1:
+                Decoder().process(b, ignore_value_expectation=True, wire_template_data=False)
+            elif a == 2:
+                from pybufrkit.script import ScriptRunner
+                ScriptRunner('#$ data_values_nest_level = %d\na = ${001001}\nb = ${%%edition}\n' % rng.choice([0, 2, 4])).run(m)
+            elif a == 3:
+                from pybufrkit.dataquery import NodePathParser, DataQuerent
+                DataQuerent(NodePathParser(bare_id_matches_all=False)).query(m, '@[0] > 001002').all_values()
+            elif a == 4:
+                from pybufrkit.mdquery import MetadataExprParser, MetadataQuerent
+                MetadataQuerent(MetadataExprParser()).query(m, '%1.section_length')
+            elif a == 5:
+                from pybufrkit.renderer import NestedTextRenderer, NestedJsonRenderer
+                NestedTextRenderer().render(m)
+                NestedJsonRenderer().render(m)
+            elif a == 6:
+                from pybufrkit.bitops import get_bit_reader, get_bit_writer
+                r = get_bit_reader(b)
+                r.read_bytes(4)
+                w = get_bit_writer()
+                w.write_uint(5, 3)
+            else:
+                from pybufrkit.decoder import generate_bufr_message
+                list(generate_bufr_message(Decoder(), b + b'xx' + b, info_only=True, filter_expr='${%edition} == 4'))
+        except Exception:
+            pass
 
 
-def exercise(ctx, factory, rng, prefix, spec, nops=8, light=False):
+def exercise(ctx, factory, rng, prefix, spec, nops=8, light=False, script=None):
     """factory() -> fresh message object (decoded or encoder-returned) of the same content.  Returns the number of
     comparisons made; reports differences through ctx.violate with signatures  <prefix>/<operation kind>-differs/after-<previous kind>."""
     try:
@@ -189,9 +221,9 @@ def exercise(ctx, factory, rng, prefix, spec, nops=8, light=False):
         ctx.notes.append('object history setup failed: %r' % (e,))
         return 0
     names = sorted(ops)
-    if rng.random() < 0.5:
+    if script is not None or rng.random() < 0.5:
         # scripted histories: the sequences in which shared structure, lazy wiring and once-only bookkeeping matter most
-        script = rng.choice(SCRIPTS)
+        script = script if script is not None else rng.choice(SCRIPTS)
         seq = []
         chosen = {}
         for pref in script:
@@ -333,7 +365,7 @@ def _rng(ctx):
     return r
 
 
-def on_message(ctx, b, spec, site='m', prefix='object-history', p=0.2, quota=None, encoder_returned=0.34, light=False, **deckw):
+def on_message(ctx, b, spec, site='m', prefix='object-history', p=0.2, quota=None, encoder_returned=0.34, light=False, script=None, **deckw):
     """At a rate (and up to a per-shard quota per call site) take the message `b` through one object history of a decoded object
     and, a third of the time, one of an encoder-returned object built from the python lists of its flat JSON form."""
     rng = _rng(ctx)
@@ -343,7 +375,7 @@ def on_message(ctx, b, spec, site='m', prefix='object-history', p=0.2, quota=Non
     ctx.counters[key] += 1
     spec = dict(spec, object_history_site=site)
     f = decoded_factory(b, rng, **deckw)
-    exercise(ctx, f, rng, prefix, spec, light=light)
+    exercise(ctx, f, rng, prefix, spec, light=light, script=script)
     if rng.random() < 0.5:
         forms_agree(ctx, f, rng, prefix, spec)
     if rng.random() < 0.5:
